@@ -56,11 +56,11 @@ def ioRes : Except Rbsp.IoKind (List UInt8) → String
 
 /-- drain: `fill_buf` / `consume(all)` until the end or an error; returns the reader, the bytes and the final status -/
 def drainAll : Nat → Rbsp.BR → List UInt8 → Rbsp.BR × List UInt8 × String
-  | 0, r, acc => (r, acc, "runaway")
-  | fuel+1, r, acc =>
+  | 0, r, acc => (r, acc.reverse, "runaway")
+  | fuel+1, r, acc =>     -- `acc` is kept reversed (linear time)
     match Rbsp.fillBuf r with
-    | (r', .error k) => (r', acc, ioKind k)
-    | (r', .ok buf) => if buf = [] then (r', acc, "end") else drainAll fuel (Rbsp.consume r' buf.length) (acc ++ buf)
+    | (r', .error k) => (r', acc.reverse, ioKind k)
+    | (r', .ok buf) => if buf = [] then (r', acc.reverse, "end") else drainAll fuel (Rbsp.consume r' buf.length) (buf.reverse ++ acc)
 
 /-! ### rbsp: ops `f`, `c<k>` (k clipped to what the last fill showed and was not yet consumed), `r<n>` -/
 def rbsp (chunks : List (List UInt8)) (complete : Bool) (skip : Nat) (ops : List String) : String :=
@@ -158,7 +158,7 @@ def avcc (d : List UInt8) : String :=
   match Avcc.tryFrom d with
   | .ok () =>
     let f := match Avcc.fields d with
-      | .ok f => s!"v={f.version} n={f.numSps} prof={f.profile} compat={f.compat} level={f.level} lsm1={f.lengthSizeMinusOne}"
+      | .ok f => s!"v={f.version} n={f.numSps} prof={f.profile} compat={f.compat} level={f.level}{if f.levelIs1b then "b" else ""} lsm1={f.lengthSizeMinusOne}"
       | _ => "PANIC"
     let ctx := match Avcc.createContext d with
       | .ok c => "Ok(sps=[" ++ ";".intercalate ((Ctx.iter c.sps).map Render.sps) ++ "] pps=[" ++ ";".intercalate ((Ctx.iter c.pps).map Render.pps) ++ "])"
@@ -237,7 +237,7 @@ def derived (src : Src) : String :=
   | .ok (s, _) =>
     let dims := match Sps.pixelDimensions s with | .ok (w, h) => s!"Ok({w},{h})" | .error _ => "Err"
     let fps := match Sps.fpsOf s with | none => "None" | some (ts, n) => s!"Some({ts},{n},exact)"
-    s!"Ok dims={dims} fps={fps} codec={Sps.rfc6381 s} mbs={Sps.picWidthInMbs s},{Sps.picHeightInMapUnits s},{Sps.picSizeInMapUnits s} profile={s.profileIdc} level={s.levelIdc} log2fn={s.log2MaxFrameNumMinus4 + 4}"
+    s!"Ok dims={dims} fps={fps} codec={Sps.rfc6381 s} mbs={Sps.picWidthInMbs s},{Sps.picHeightInMapUnits s},{Sps.picSizeInMapUnits s} profile={s.profileIdc} level={s.levelIdc}{if s.levelIdc = 11 ∧ s.constraintFlags / 16 % 2 = 1 then "b" else ""} log2fn={s.log2MaxFrameNumMinus4 + 4}"
 
 /-! ### context operations -/
 def ctxOps (ops : List String) : String :=
